@@ -107,7 +107,8 @@ def order_snapshot(o, name):
             "frags": [[f[0], f[1], f[2]] for f in s.matched], "piq": s._piq, "bet": o.bet_id,
             "created": ms(o.date_time_created), "placed": ms(o.responses.date_time_placed), "stat_t": ms(o.date_time_status_update),
             "done_t": ms(o.date_time_execution_complete), "profit": o.profit, "upd": dict(o.update_data),
-            "trade_status": o.trade.status.value, "trade_log": [x.value for x in o.trade.status_log]}
+            "trade_status": o.trade.status.value, "trade_log": [x.value for x in o.trade.status_log], "trade": o.trade.id[:8],
+            "trade_pending_orders": bool(o.trade.pending_orders)}
 
 
 def run_scenario(sc, observe="all"):
@@ -219,6 +220,7 @@ def run_scenario(sc, observe="all"):
                 txn = None
                 for a in acts:
                     res = None
+                    extra = {}
                     try:
                         if a[0] == "txn_begin":
                             txn = market.transaction(client=cls[self.spec.get("client", 0)]); txn.__enter__(); res = "ok"
@@ -264,6 +266,9 @@ def run_scenario(sc, observe="all"):
                             o = names.get(a[1])
                             opt = (a[3] if len(a) > 3 else None) or {}
                             tgt = txn if txn is not None else market
+                            if o is not None:
+                                extra["before"] = [o.status.value if o.status else None, o.bet_id, len(o.status_log), dict(o.update_data), o.size_remaining, o.order_type.ORDER_TYPE.name,
+                                                   getattr(o.order_type, "price", None), getattr(o.order_type, "persistence_type", None)]
                             if o is None:
                                 res = "noorder"
                             elif a[0] == "cancel":
@@ -276,7 +281,11 @@ def run_scenario(sc, observe="all"):
                         raise
                     except Exception as e:
                         res = "EXC:" + type(e).__name__
-                    rec.requests.append([self.idx, mi, u, a[0], a[1] if len(a) > 1 else None, res])
+                    if "before" in extra:
+                        o = names.get(a[1])
+                        extra["after"] = [o.status.value if o.status else None, o.bet_id, len(o.status_log), dict(o.update_data), o.size_remaining, o.order_type.ORDER_TYPE.name,
+                                          getattr(o.order_type, "price", None), getattr(o.order_type, "persistence_type", None)]
+                    rec.requests.append([self.idx, mi, u, a[0], a[1] if len(a) > 1 else None, res, extra])
                 if txn is not None:
                     txn.__exit__(None, None, None)
 
